@@ -210,6 +210,20 @@ CHECKS["C15"] = (
     "total rigid mass at vanishing frequency (exactly at 0 Hz on the cbtf route).",
     "Scalar (1-D) networks with one rigid-body mode; tolerance 1000*eps*cond of the dynamic stiffness / "
     "accelerance matrices involved.", "3/C15")
+CHECKS["C03"] = (
+    "exhaustive stype x ic x peak x time grid + Hypothesis signals/options; reference = exact response of the "
+    "damped oscillator to the linearly interpolated input (augmented-matrix exponential, mpmath cross-check) "
+    "with the documented initial-condition rules, windows and peak statistics re-implemented; metamorphic "
+    "relations; closed forms for srs_frf / vrs",
+    "Generated-input search: response histories and spectrum values of srs (all six response types, four "
+    "initial-condition rules, six peak statistics, three time windows, the whole 432-combination grid "
+    "enumerated) are compared with an independent exact reference, tolerance graded by the conditioning "
+    "eps*(N + (w/sr)^-3) of the ramp-invariant coefficients; abs = max(pos, neg), total vs primary/residual, "
+    "pvelo = w*reldisp, pacce = w^2*reldisp, eqsine = srs/Q, column-permutation / packaging invariance "
+    "(bit-exact) and scaling are checked as relations; the roll-off contract, srs_frf and vrs (incl. Miles) "
+    "against closed forms.",
+    "sr/fn <= 2000 (property domain); parallel='no' (C09 decides the parallel path); known finding F26 "
+    "(linear roll-off with up-sampling factor >= 3) excluded by signature and counted.", "3/C03")
 
 NOT_APPLICABLE = {
 }
